@@ -42,6 +42,9 @@ def cases(c):
             out.append({'cls': cls, 'p': params, 'N': N, 'NFFT1': NFFT1, 'factor': int(gen.pick(rng, [2, 3, 5])),
                         'cplx': int(rng.integers(0, 2)), 'kind': gen.pick(rng, ['noise', 'tones', 'ar', 'trend']),
                         'fs': gen.pick(rng, [1.0, 2.0, 100.0]), 'reuse': ((j // 3) % 4) if j % 3 == 1 else None, 'j': j})
+            if cls == 'MultiTapering' and j % 3 == 2:
+                # the caller computes the tapers once (dpss) and hands the same arrays to the objects of both grids
+                out[-1]['tapers'] = 'caller'
     # hostile for the adaptive multitaper: large dynamic range (finding F23 lives here)
     for j, (N, n1, fac, cplx) in enumerate([(64, 65, 2, 0), (64, 64, 3, 1), (48, 50, 2, 0), (40, 41, 5, 1),
                                             (64, 65, 2, 0), (64, 65, 2, 0), (64, 65, 2, 0), (64, 64, 3, 1)]):
@@ -86,9 +89,21 @@ def run_case(c, d):
     adapt = cls == 'MultiTapering' and d['p'].get('method', 'adapt') == 'adapt'
     feats = {'cls': cls, 'cplx': cplx, 'nfft1_odd': bool(n1 % 2), 'adapt': adapt}
     log = []
+    tapers = None
+    if d.get('tapers') == 'caller':
+        import spectrum
+        try:
+            tapers = spectrum.dpss(N, d['p']['NW'], d['p'].get('k'))
+        except Exception as exc:
+            c.exception('dpss', exc, feats)
+            return
+        feats = dict(feats, tapers='caller')
     for role, nf in (('NFFT1', n1), ('NFFT2', n2)):
         try:
-            if d.get('reuse') is not None and role == 'NFFT2':
+            if tapers is not None:
+                p = spectrum.MultiTapering(x, NFFT=nf, e=tapers[1], v=tapers[0], method=d['p'].get('method', 'adapt'),
+                                           sampling=d['fs'], scale_by_freq=False)
+            elif d.get('reuse') is not None and role == 'NFFT2':
                 p = E.build_reused(cls, d['p'], x, NFFT=nf, fs=d['fs'], scale=False, salt=d['reuse'])
             else:
                 p = E.build(cls, d['p'], x, NFFT=nf, fs=d['fs'], scale=False)
